@@ -262,6 +262,15 @@ func (w *World) resolveAddrPort(network, address string) ([]netip.AddrPort, erro
 // ResolveUDPAddr is the facade for net.ResolveUDPAddr.
 func ResolveUDPAddr(network, address string) (*net.UDPAddr, error) {
 	aps, err := W.resolveAddrPort(network, address)
+	// QUIC upstreams resolve their target and then write datagrams to it from
+	// an unconnected socket: the resolution is what shows where they "dial".
+	if W.OnDial != nil {
+		r := ""
+		if err == nil {
+			r = aps[0].String()
+		}
+		W.OnDial(OwnerProxy, "udp", address, r)
+	}
 	if err != nil {
 		return nil, err
 	}
